@@ -362,9 +362,7 @@ class LRUCache(_CacheBase):
     def clear(self) -> None:
         """Clear the cache."""
         with self._cache_lock:
-            keys = list(self._cache_dict.keys())
-            for key in keys:
-                del self._cache_dict[key]
+            self._cache_dict.clear()
             del self._cache_queue[:]
 
 
@@ -398,9 +396,7 @@ class SimpleCache(_CacheBase):
 
     def clear(self) -> None:
         """Clear the cache."""
-        keys = list(self._cache_dict.keys())
-        for key in keys:
-            del self._cache_dict[key]
+        self._cache_dict.clear()
 
 
 class DiskCache(_CacheBase):
@@ -748,6 +744,9 @@ def to_hashable(  # noqa: C901, PLR0911, PLR0912
     numpy arrays and pandas Series/DataFrames.
 
     """
+    if isinstance(obj, float) and obj != obj:  # noqa: PLR0124
+        # NaN is hashable but not equal to itself, a key containing it would never be found again
+        return (_HASH_MARKER, float, "nan")
     try:
         hash(obj)
     except Exception:  # noqa: BLE001, S110
